@@ -89,7 +89,10 @@ func packageLevel(r *common.Run) {
 		if seed%2 == 1 {
 			src.Seed(seed * 7919)
 		}
-		g := randz.NewStrGenerator("abc世", src)
+		var g randz.StrGenerator
+		if _, _, p := common.Catch(func() { g = randz.NewStrGenerator("abc世", src) }); p {
+			break // reported by the sequential family
+		}
 		for _, k := range []int{0, 1, 5, 40} {
 			n++
 			out := g.Generate(k)
